@@ -64,9 +64,12 @@ def rot_tokens(lines):
     return toks
 
 
-def request(k, lines):
-    """`<spacing> [@rot …] | line | line …`"""
-    return ' '.join([fstr(k)] + rot_tokens(lines)) + ' | ' + ' | '.join(' '.join(l.split()) for l in lines)
+def request(k, lines, draw_keys=()):
+    """`<spacing> [@rot …] [@draw key …] | line | line …`"""
+    dk = []
+    for key in sorted(draw_keys):
+        dk += ['@draw', key]
+    return ' '.join([fstr(k)] + rot_tokens(lines) + dk) + ' | ' + ' | '.join(' '.join(l.split()) for l in lines)
 
 
 def gname(n):
